@@ -249,7 +249,7 @@ func TestExhaustive(t *testing.T) {
 // ---------------------------------------------------------------------------
 // rapid: longer sequences over a slightly larger universe
 
-var paths = []string{"a", "a/b", "a/b/c", "d", "d/e", "l", "m/n/o", "a/x", strings.Repeat("p", 120) + "/" + strings.Repeat("q", 110)}
+var paths = []string{"a", "a/b", "a/b/c", "d", "d/e", "l", "m/n/o", "a/x", "A", "A/b", "D", strings.Repeat("p", 120) + "/" + strings.Repeat("q", 110)}
 
 func genEntry(unpriv bool) *rapid.Generator[tarx.Entry] {
 	return rapid.Custom(func(t *rapid.T) tarx.Entry {
